@@ -41,7 +41,8 @@ def gen_history(rng, length):
             metas.append(op["out"])
             hist.append(op)
         elif r < 0.6:
-            k = rng.choice(["add", "delete", "grow", "shrink", "rewrite"] + (["resize"] * 3 if auto else []))
+            k = rng.choice(["add", "delete", "grow", "shrink", "rewrite", "rewrite-same-size"] +
+                           (["resize"] * 3 if auto else []))
             if k == "resize":
                 # sparse file crossing the automatic piece-length thresholds (1000 * 2^k)
                 hist.append({"op": "fs", "kind": "resize", "rel": "p/big",
@@ -60,6 +61,8 @@ def gen_history(rng, length):
                     hist.append({"op": "fs", "kind": "delete", "rel": rel})
                 elif k == "grow":
                     hist.append({"op": "fs", "kind": "grow", "rel": rel, "data": f"r{counter}.{rng.choice([1, 16384])}"})
+                elif k == "rewrite-same-size":
+                    hist.append({"op": "fs", "kind": "rewrite-same-size", "rel": rel, "seed": counter})
                 elif k == "shrink":
                     hist.append({"op": "fs", "kind": "shrink", "rel": rel, "by": rng.choice([1, 5, 16384])})
                 else:
@@ -69,7 +72,8 @@ def gen_history(rng, length):
                          "req": {"comment": rng.choice(["x", "", "y z"]),
                                  "announce": rng.choice([None, ["http://a/b"], ""])}})
         elif r < 0.8:
-            hist.append({"op": "recheck", "meta": rng.choice(metas), "content": rng.choice(["p", "."])})
+            hist.append({"op": "recheck", "meta": rng.choice(metas), "content": rng.choice(["p", "."]),
+                         "reuse": rng.random() < 0.5})
         elif r < 0.9:
             hist.append({"op": "rebuild", "metas": [rng.choice(metas)], "contents": ["p"],
                          "dest": f"dest{counter}"})
